@@ -223,6 +223,38 @@ MUTANTS = [
                     Op::CheckOptionalType""", expect="V-codegen::Compiler::compile_check_type::"),
     dict(name="codegen_assign_result_any_not_temporary", kind="break", prop="C01", units=["V-codegen"], file="crates/bytecode/src/compiler.rs",
          old="ResultRegister::Any => CompileNodeOutput::with_temporary(self.push_register()?),", new="ResultRegister::Any => CompileNodeOutput::with_assigned(self.push_register()?),", expect="V-codegen::Compiler::assign_result_register::"),
+    dict(name="codegen_if_no_jump_after_then_with_else_ifs", kind="break", prop="C01", units=["V-codegen"], file="crates/bytecode/src/compiler.rs",
+         old="if !else_if_blocks.is_empty() || else_node.is_some() || result.register.is_some() {", new="if else_node.is_some() || result.register.is_some() {", expect="V-codegen::Compiler::compile_if::"),
+    dict(name="codegen_if_condition_patched_after_else_ifs", kind="break", prop="C01", units=["V-codegen"], file="crates/bytecode/src/compiler.rs",
+         old="""        // A failing condition for the if jumps to here, at the start of the else if / else blocks
+        self.update_offset_placeholder(condition_jump_ip)?;
+""", new="", expect="V-codegen::Compiler::compile_if::"),
+    dict(name="codegen_if_else_if_jump_not_collected", kind="break", prop="C01", units=["V-codegen"], file="crates/bytecode/src/compiler.rs",
+         old="""        for else_if_jump_ip in else_if_jump_ips.iter() {
+            self.update_offset_placeholder(*else_if_jump_ip)?;
+        }""", new="""        for else_if_jump_ip in else_if_jump_ips.iter() {
+            self.update_offset_placeholder(condition_jump_ip)?;
+        }""", expect="V-codegen::Compiler::compile_if::"),
+    dict(name="codegen_if_then_block_any_register", kind="break", prop="C01", units=["V-codegen"], file="crates/bytecode/src/compiler.rs",
+         old="        self.compile_node(*then_node, expression_context)?;", new="        self.compile_node(*then_node, ctx.with_any_register())?;", expect="V-codegen::Compiler::compile_if::"),
+    dict(name="codegen_if_no_null_without_else", kind="break", prop="C01", units=["V-codegen"], file="crates/bytecode/src/compiler.rs",
+         old="""        } else if let Some(result_register) = result.register {
+            self.push_op_without_span(SetNull, &[result_register]);
+        }""", new="""        }""", expect="V-codegen::Compiler::compile_if::else_block_or_null_last"),
+    dict(name="codegen_cmp_only_last_jump_patched", kind="break", prop="C01", units=["V-codegen"], file="crates/bytecode/src/compiler.rs",
+         old="""        for jump_offset in jump_offsets.iter() {
+            self.update_offset_placeholder(*jump_offset)?;
+        }""", new="""        for jump_offset in jump_offsets.iter() {
+            self.update_offset_placeholder(jump_offsets[0])?;
+        }""", expect="V-codegen::Compiler::compile_comparison_op::"),
+    dict(name="codegen_cmp_operand_evaluated_twice", kind="break", prop="C01", units=["V-codegen"], file="crates/bytecode/src/compiler.rs",
+         old="                    lhs_register = rhs_lhs_register;\n                    rhs = *rhs_rhs;", new="                    lhs_register = self.compile_node(*rhs_lhs, ctx.with_any_register())?.unwrap(self)?;\n                    rhs = *rhs_rhs;", expect="V-codegen::Compiler::compile_comparison_op::"),
+    dict(name="codegen_cmp_less_maps_to_less_or_equal", kind="break", prop="C01", units=["V-codegen"], file="crates/bytecode/src/compiler.rs",
+         old="                Less => Op::Less,\n                LessOrEqual => Op::LessOrEqual,", new="                Less => Op::LessOrEqual,\n                LessOrEqual => Op::LessOrEqual,", expect="V-codegen::Compiler::compile_comparison_op::"),
+    dict(name="codegen_cmp_jump_if_true", kind="break", prop="C01", units=["V-codegen"], file="crates/bytecode/src/compiler.rs",
+         old="self.push_op(Op::JumpIfFalse, &[comparison_register]);\n                    jump_offsets.push(", new="self.push_op(Op::JumpIfTrue, &[comparison_register]);\n                    jump_offsets.push(", expect="V-codegen::Compiler::compile_comparison_op::"),
+    dict(name="codegen_cmp_stale_lhs_register", kind="break", prop="C01", units=["V-codegen"], file="crates/bytecode/src/compiler.rs",
+         old="                    lhs_register = rhs_lhs_register;\n", new="", expect="V-codegen::Compiler::compile_comparison_op::"),
     dict(name="bytecursor_next_back_front_byte", kind="break", prop="C13", units=["V-bytecursor"], file="crates/runtime/src/types/iterator.rs",
          old="let result = (self.bytes)[self.end];", new="let result = (self.bytes)[self.index];", expect="V-bytecursor::ByteIterator::next_back::yields_back_position"),
     dict(name="bytecursor_next_reads_after_advance", kind="break", prop="C13", units=["V-bytecursor"], file="crates/runtime/src/types/iterator.rs",
